@@ -1141,6 +1141,97 @@ def check_C15(tier, seed, replay):
     return res
 
 
-CHECKS = {"C15": check_C15, "C18": check_C18, "C11": check_C11, "C01": check_C01, "C02": check_C02, "C04": check_C04, "C05": check_C05, "C06": check_C06,
+
+# ---------------------------------------------------------------------------------------------- C20
+def audit_shared_state():
+    """structural audit backing the specification's no-shared-variable assumption (reported, not a verdict)"""
+    import re
+    pat = re.compile(r"\b(static\s+(mut\s+)?[A-Z_]+\s*:|thread_local!|lazy_static!|OnceCell|OnceLock|Mutex<|RwLock<|Atomic[A-Z])")
+    hits = []
+    rt = os.path.join(vlib.REPO, "runtime", "src")
+    for f in sorted(os.listdir(rt)):
+        if f.endswith(".rs") and f != "verif.rs":
+            for i, line in enumerate(open(os.path.join(rt, f)), 1):
+                if pat.search(line) and not line.strip().startswith("//"):
+                    hits.append("runtime/src/%s:%d: %s" % (f, i, line.strip()[:100]))
+    return hits
+
+
+def check_C20(tier, seed, replay):
+    import subprocess
+    res = Result()
+    # 1. the design: per-call state; TLC explores all interleavings; the excluded designs must be refuted
+    sfx = "" if tier == "quick" else "_thorough"
+    t0 = tlc_simple("session_per_call", "Session.tla", "Session_per_call%s.cfg" % sfx, tier)
+    if t0["rc"] != 0:
+        raise ToolError("Session (per-call state) violates SessionPure:\n%s" % (t0["violation"] or "")[:2000])
+    refuted = []
+    for dsg in ("per_thread", "shared"):
+        tv = tlc_simple("session_" + dsg, "Session.tla", "Session_%s.cfg" % dsg, tier)
+        refuted.append(tv["rc"] != 0)
+    if not all(refuted):
+        raise ToolError("vacuity: TLC no longer refutes the per-thread / shared cache designs")
+    # 2. the real code: concurrent parses against a sequential run
+    nthreads, rounds = (8, 4) if tier == "quick" else (16, 40)
+    fams = ["memo", "lr", "ops"]
+    runs, cov = machine_runs("C20", fams, tier, seed, replay)
+    total = 0
+    thread_cases = []
+    cases_all = []
+    for r in runs:
+        cases_all += r.cases
+        name = os.path.basename(os.path.dirname(r.cdir))
+        binp = os.path.join(vlib.WORK, "target", "debug", "fam_%s_%s" % (name, r.tier))
+        of = os.path.join(vlib.famdir(name, r.tier), "threads.jsonl")
+        p_ = subprocess.run([binp, os.path.join(r.cdir, "cases.tsv"), of, "0", "--threads", str(nthreads), "--rounds", str(rounds)],
+                            stdout=subprocess.PIPE, stderr=subprocess.PIPE, text=True, timeout=3600)
+        if p_.returncode != 0:
+            # a crash under concurrency that does not happen sequentially is a violation of the property
+            res.add(Violation("C20", "SessionPure", "the concurrent run of family %s died (rc=%s) although the sequential run completes: %s" % (
+                r.fam, p_.returncode, p_.stderr[-300:]), None, {"name": r.fam, "site": "crash"}))
+            continue
+        lines = open(of).read().splitlines()
+        summ = json.loads(lines[0])
+        total += summ["parses"]
+        lines_cases = open(os.path.join(r.cdir, "cases.tsv")).read().splitlines()
+        key_to_case = {(c.gid, tuple(c.inp)): c for c in r.cases + r.real_only}
+        for m in summ["mismatches"]:
+            gid, hx = lines_cases[m["case"]].split("\t")
+            c = key_to_case.get((gid, tuple(ord(x) for x in bytes.fromhex(hx).decode("utf-8"))))
+            res.add(Violation("C20", "SessionPure", "thread %d got a different outcome than the sequential run: %s vs %s" % (
+                m["thread"], json.dumps(m["par"].get("res"))[:200], json.dumps(m["seq"].get("res"))[:200]), c,
+                {"name": r.fam, "thread": m["thread"]}))
+        # per-thread traces of the first round, in the thread's own order
+        for l in lines[1:]:
+            o = json.loads(l)
+            gid, hx = lines_cases[o["case"]].split("\t")
+            c = key_to_case.get((gid, tuple(ord(x) for x in bytes.fromhex(hx).decode("utf-8"))))
+            if c is not None:
+                tc = props.Case(r.fam, c.g, c.inp, c.exp, o["outcome"])
+                thread_cases.append(tc)
+    for c in cases_all:
+        if not c.crashed and not c.act.get("again_same", True):
+            res.add(Violation("C20", "SessionPure", "parsing the same input again gives a different result", c))
+    nt = sum(1 for c in cases_all if any(r_.kind == "rule" and (r_.memoize or r_.leftrec) for r_ in c.g.rules))
+    res.coverage = base_coverage(runs, cov, cases_all, nt,
+                                 "memo, left-recursion and operator families x all inputs up to the bound, parsed sequentially (twice "
+                                 "each, and in two orders) and concurrently from %d threads x %d rounds, each thread walking the cases "
+                                 "in its own order; non-trivial = grammar with a memoized or left-recursive rule" % (nthreads, rounds),
+                                 0)
+    res.coverage["states"] += t0["distinct"]
+    res.coverage["transitions"] += t0["states"]
+    res.coverage["concurrent_parses"] = total
+    res.coverage["threads"] = nthreads
+    res.coverage["excluded_designs_refuted_by_tlc"] = ["per_thread", "shared"]
+    res.coverage["shared_state_audit"] = audit_shared_state() or "no static / thread_local / interior-mutable global in runtime/src (hook file excluded)"
+    if thread_cases:
+        monitor(res, "C20", "cache", thread_cases, tier, "FreshCache", "a cache hit in a thread's parse that no entry of the same call explains")
+    res.assumptions = ["TLC enumerates the interleavings of the model; real thread schedules are sampled, not enumerated",
+                       "outcome = result, tracer callbacks and recorded cursor advances, compared as a whole"]
+    res.level = "model_checking"
+    return res
+
+
+CHECKS = {"C20": check_C20, "C15": check_C15, "C18": check_C18, "C11": check_C11, "C01": check_C01, "C02": check_C02, "C04": check_C04, "C05": check_C05, "C06": check_C06,
           "C07": check_C07, "C08": check_C08, "C09": check_C09, "C10": check_C10, "C13": check_C13,
           "C14": check_C14, "C19": check_C19}
